@@ -129,7 +129,7 @@ def _cmp(ctx, name, P, T, i, what):
 
 def run(case, ctx):
     name, cfg, sc = case["det"], case["cfg"], case["scenario"]
-    P = ctx.call(f"C16:{name}:ctor", adapters.build, name, cfg)
+    P = ctx.call(f"C16:{name}:ctor", adapters.build, name, cfg, case.get("retype"))
     T = adapters.build(name, cfg)
     drifts = 0
     used = set()
